@@ -17,6 +17,7 @@ import Qsx.Model.Log
 import Qsx.Model.Ratio
 import Qsx.Model.Symtab
 import Qsx.Model.LpLex
+import Qsx.Model.MpsLex
 open Qsx
 
 def hexVal (c : Char) : Option Nat :=
@@ -337,6 +338,44 @@ def lplexSession : P (List String) := do
     match r with
     | some (s', rc, extra) => s := s'; out := out ++ [show_ s' rc extra]
     | none => dead := true; out := out ++ ["lx OOB"]
+  pure out
+
+
+/-- `mpslex <hex bytes|-> <n> op*n` with the ops of harness/qsx_mpslex.c (without the `mx` prefix): one answer line per op,
+`mx rc pnull line_num p field_num key field [extra]`; `mx OOB` when the model dereferenced a null cursor or read behind the
+string terminator -/
+def mpslexSession : P (List String) := do
+  let hexb ← pTok
+  let bytes ← (unhex hexb : Option (List Char))
+  let n ← pNat
+  let hx (l : List Char) : String := if l.isEmpty then "00" else hexStr (String.ofList l)
+  let show_ (s : Qsx.MpsLex.St) (rc : Int) (extra : String) : String :=
+    s!"mx {rc} {if s.pnull then 1 else 0} {s.lineNum} {if s.pnull then 0 else s.p} {s.fieldNum} {hx s.key} {hx s.field}{extra}"
+  let fmtB : Qsx.LpLex.Bnd → String
+    | .val q => ratToStr q
+    | .pinf => "inf"
+    | .ninf => "-inf"
+  let s0 : Qsx.MpsLex.St := { file := Qsx.LpLex.chunks (Qsx.Gen.namebufsize - 2) bytes }
+  let mut s := s0
+  let mut out : List String := [show_ s0 0 ""]
+  let mut dead := false
+  for _ in [0:n] do
+    let op ← pTok
+    let r : Option (Qsx.MpsLex.St × Int × String) ←
+      (match op with
+      | "nl" => pure ((Qsx.MpsLex.nextLine s).map fun (a, r) => (a, r, ""))
+      | "nf" => pure ((Qsx.MpsLex.nextField s).map fun (a, r) => (a, r, ""))
+      | "coef" => pure ((Qsx.MpsLex.nextCoef s).map fun (a, r, v) => (a, r, " " ++ ratToStr (v.getD 7)))
+      | "bound" => pure ((Qsx.MpsLex.nextBound s).map fun (a, r, v) => (a, r, " " ++ (match v with | some b => fmtB b | none => "7")))
+      | "isnum" => do let _ ← pTok; pure ((Qsx.MpsLex.nextFieldIsNumber s).map fun (a, b) => (a, 0, if b then " 1" else " 0"))
+      | "eol" => pure ((Qsx.MpsLex.checkEndOfLine s).map fun (a, b) => (a, 0, if b then " 1" else " 0"))
+      | "seteol" => pure ((Qsx.MpsLex.setEndOfLine s).map fun a => (a, 0, ""))
+      | _ => failure : P (Option (Qsx.MpsLex.St × Int × String)))
+    if dead then out := out ++ ["mx OOB"] else
+    if s.pnull && op != "nl" then out := out ++ ["mx NULLP"] else      -- the harness does not make the call either
+    match r with
+    | some (s', rc, extra) => s := s'; out := out ++ [show_ s' rc extra]
+    | none => dead := true; out := out ++ ["mx OOB"]
   pure out
 
 /-- one protocol line ↦ answer lines (without the terminating ".") -/
@@ -673,6 +712,8 @@ def answer (cx : Ctx) (toks : List String) : Ctx × List String :=
     (cx, (symtabSession.run' rest).getD ["bad-op"])
   | "lplex" :: rest =>
     (cx, (lplexSession.run' rest).getD ["bad-op"])
+  | "mpslex" :: rest =>
+    (cx, (mpslexSession.run' rest).getD ["bad-op"])
   | "ratiod2" :: rest =>
     -- C03: ILLratio_dII_test on explicit columns: lvupper pivtol dftol n (zA dz cz vstat skip)*n
     let r : Option (List String) := (do
